@@ -229,4 +229,145 @@ theorem decodeH_sim (d : MsgDef) (h : Heap) (inp : Nat) :
   | err e => rw [hm] at h1; simp only [ManOK] at h1; simp only [hm, h1]
   | panic => rw [hm] at h1; simp only [ManOK] at h1; simp only [hm, h1]
 
+/-! ## pairwise distinct regions -/
+
+theorem refs_nodup (v : IEValH) : v.refs.Nodup := by
+  unfold IEValH.refs
+  cases v.st <;> simp
+
+/-- mandatory part: the regions of different elements are different -/
+theorem decManH_nodup (ss : List Slot) (bs : Bytes) (h : Heap) (vs : List IEValH) (r : Bytes) (h' : Heap)
+    (hd : decManH ss bs h = .ok (vs, r, h')) : (vs.flatMap IEValH.refs).Nodup := by
+  induction ss generalizing bs h vs r h' with
+  | nil => simp [decManH] at hd; obtain ⟨rfl, _, _⟩ := hd; simp
+  | cons s ss ih =>
+    have h1 := decBodyH_ok s 0 bs h
+    cases hb : decBodyH s 0 bs h with
+    | ok p =>
+      obtain ⟨v, rest, hh1⟩ := p
+      rw [hb] at h1
+      obtain ⟨⟨e1, he1⟩, _, hr⟩ := h1
+      have h2 := decManH_ok ss rest hh1
+      cases hm : decManH ss rest hh1 with
+      | ok q =>
+        obtain ⟨vs', rest', hh2⟩ := q
+        rw [hm] at h2
+        obtain ⟨_, _, hrs⟩ := h2
+        simp only [decManH, hb, hm, Outcome.ok.injEq, Prod.mk.injEq] at hd
+        obtain ⟨rfl, _, _⟩ := hd
+        simp only [List.flatMap_cons]
+        rw [List.nodup_append]
+        refine ⟨refs_nodup v, ih rest hh1 vs' rest' hh2 hm, ?_⟩
+        intro a ha b hb' hab
+        have := (hr a ha).2
+        have := (hrs b hb').1
+        omega
+      | err e => simp [decManH, hb, hm] at hd
+      | panic => simp [decManH, hb, hm] at hd
+    | err e => simp [decManH, hb] at hd
+    | panic => simp [decManH, hb] at hd
+
+theorem slotRefs_cons (o : Option IEValH) (sh : List (Option IEValH)) :
+    slotRefs (o :: sh) = (match o with | some v => v.refs | none => []) ++ slotRefs sh := by
+  cases o <;> simp [slotRefs]
+
+theorem slotRefs_set_nodup (sh : List (Option IEValH)) (i : Nat) (v : IEValH) (hn : (slotRefs sh).Nodup)
+    (hdis : ∀ x ∈ v.refs, x ∉ slotRefs sh) : (slotRefs (sh.set i (some v))).Nodup := by
+  induction sh generalizing i with
+  | nil => simpa using hn
+  | cons o sh ih =>
+    rw [slotRefs_cons, List.nodup_append] at hn
+    obtain ⟨h1, h2, h3⟩ := hn
+    have hdis2 : ∀ x ∈ v.refs, x ∉ slotRefs sh := by
+      intro x hx hc; exact hdis x hx (by rw [slotRefs_cons]; exact List.mem_append_right _ hc)
+    cases i with
+    | zero =>
+      simp only [List.set_cons_zero]
+      rw [slotRefs_cons, List.nodup_append]
+      refine ⟨refs_nodup v, h2, ?_⟩
+      intro a ha b hb hab
+      subst hab
+      exact hdis2 a ha hb
+    | succ i =>
+      simp only [List.set_cons_succ]
+      rw [slotRefs_cons, List.nodup_append]
+      refine ⟨h1, ih i h2 hdis2, ?_⟩
+      intro a ha b hb hab
+      subst hab
+      rcases slotRefs_set sh i v a hb with hb | hb
+      · exact h3 a ha a hb rfl
+      · exact hdis a hb (by rw [slotRefs_cons]; exact List.mem_append_left _ ha)
+
+theorem decLoopH_nodup (defs : List OptSlot) (fuel : Nat) (bs : Bytes) (sh : List (Option IEValH)) (h : Heap)
+    (hinv : ∀ x ∈ slotRefs sh, x < h.length) (hn : (slotRefs sh).Nodup) (sh' : List (Option IEValH)) (h' : Heap)
+    (hd : decLoopH defs fuel bs sh h = .ok (sh', h')) : (slotRefs sh').Nodup := by
+  induction fuel generalizing bs sh h with
+  | zero => simp [decLoopH] at hd; obtain ⟨rfl, _⟩ := hd; exact hn
+  | succ n ih =>
+    cases bs with
+    | nil => simp [decLoopH] at hd; obtain ⟨rfl, _⟩ := hd; exact hn
+    | cons b rest =>
+      simp only [decLoopH] at hd
+      cases hf : findSlot defs (tmpIei b) 0 with
+      | none => rw [hf] at hd; exact ih rest sh h hinv hn hd
+      | some p =>
+        obtain ⟨i, d⟩ := p
+        rw [hf] at hd
+        simp only [] at hd
+        have h1 := decOptH_ok d b rest h
+        cases ho : decOptH d b rest h with
+        | ok q =>
+          obtain ⟨v, rest', hh1⟩ := q
+          rw [ho] at h1 hd
+          obtain ⟨⟨e1, he1⟩, _, hr⟩ := h1
+          simp only [] at hd
+          refine ih rest' (sh.set i (some v)) hh1 ?_ ?_ hd
+          · intro x hx
+            rcases slotRefs_set sh i v x hx with hx | hx
+            · have := hinv x hx; rw [he1]; simp; omega
+            · exact (hr x hx).2
+          · apply slotRefs_set_nodup sh i v hn
+            intro x hx hc
+            have := (hr x hx).1
+            have := hinv x hc
+            omega
+        | err e => rw [ho] at hd; simp at hd
+        | panic => rw [ho] at hd; simp at hd
+
+/-- no two elements of a decoded message share a region -/
+theorem decodeH_nodup (d : MsgDef) (h : Heap) (inp : Nat) (m : MsgValH) (h' : Heap) (hd : decodeH d h inp = .ok (m, h')) :
+    m.refs.Nodup := by
+  unfold decodeH at hd
+  simp only [] at hd
+  cases hm : decManH d.man (h.getD inp []) h with
+  | ok p =>
+    obtain ⟨mv, rest, hh1⟩ := p
+    rw [hm] at hd
+    simp only [] at hd
+    have hman := decManH_ok d.man (h.getD inp []) h
+    rw [hm] at hman
+    obtain ⟨_, _, hr⟩ := hman
+    cases hl : decLoopH d.opt rest.length rest (List.replicate d.opt.length none) hh1 with
+    | ok q =>
+      obtain ⟨ov, hh2⟩ := q
+      rw [hl] at hd
+      simp only [Outcome.ok.injEq, Prod.mk.injEq] at hd
+      obtain ⟨rfl, _⟩ := hd
+      have hloop := decLoopH_ok d.opt hh1 rest.length rest (List.replicate d.opt.length none) hh1
+        (by rw [slotRefs_replicate]; simp) (Nat.le_refl _)
+      rw [hl] at hloop
+      obtain ⟨_, _, hr2⟩ := hloop
+      unfold MsgValH.refs
+      rw [List.nodup_append]
+      refine ⟨decManH_nodup _ _ _ _ _ _ hm, ?_, ?_⟩
+      · exact decLoopH_nodup d.opt rest.length rest _ hh1 (by rw [slotRefs_replicate]; simp) (by rw [slotRefs_replicate]; simp) ov hh2 hl
+      · intro a ha b hb hab
+        have := (hr a ha).2
+        have := (hr2 b hb).1
+        omega
+    | err e => rw [hl] at hd; simp at hd
+    | panic => rw [hl] at hd; simp at hd
+  | err e => rw [hm] at hd; simp at hd
+  | panic => rw [hm] at hd; simp at hd
+
 end NasVerif.Codec.HeapSem
